@@ -258,9 +258,17 @@ func c12Payloader(c *mc.Ctx) {
 	key := &ref.VP9FrameHeader{ShowFrame: true, ColorSpace: 1, Width: 320, Height: 240}
 	frames := []*ref.VP9FrameHeader{h, inter, key}
 	multi := false
+	// for odd length classes an unrelated second payloader (other mode) is used before every frame
+	var decoy *codecs.VP9Payloader
+	if lenClass%2 == 1 {
+		decoy = &codecs.VP9Payloader{FlexibleMode: !flexible, InitialPictureIDFn: func() uint16 { return 77 }}
+	}
 	for fi, fh := range frames {
 		if fh.Width > 65535 || fh.Height > 65535 {
 			return
+		}
+		if decoy != nil {
+			decoy.Payload(1200, (&ref.VP9FrameHeader{ShowFrame: true, ColorSpace: 1, Width: 64, Height: 48}).Encode(30, 9))
 		}
 		first := 3
 		if !flexible && !fh.NonKey { // the library treats show-existing like a key frame here
@@ -276,8 +284,8 @@ func c12Payloader(c *mc.Ctx) {
 		if n < len(hdr) {
 			n = len(hdr)
 		}
-		frame := fh.Encode(n, byte(fi*31))
-		keep := clone(frame)
+		keep := fh.Encode(n, byte(fi*31))
+		frame, intact := guard(keep)
 		pkts := p.Payload(uint16(mtu), frame)
 		c.Ops(1)
 		desc := func() string {
@@ -286,7 +294,7 @@ func c12Payloader(c *mc.Ctx) {
 		if c.Verbose() {
 			c.Notef("%s -> %d packets", desc(), len(pkts))
 		}
-		if !bytes.Equal(frame, keep) {
+		if !bytes.Equal(frame, keep) || !intact() {
 			c.Failf("input-modified", "%s: Payload changed its input", desc())
 		}
 		if gen != nil && fi == 0 {
